@@ -65,6 +65,16 @@ eq, lt, gt, lte }` (src/uint/{add,sub,neg,cmp}.rs; namespace CB.Gen.Chains.Uint)
       in the order of their declaration in the function (not of their use: reordering the statements of the body keeps
       the signature).  An untyped state variable (`let mut carry = 1;`) gets the one integer width that type-checks the
       body (tried: 8, 32, 64, 128; none or several -> unsupported).
+
+Fourth unit group (written to lean/CB/Gen/Encoding.lean, imports CB.Gen.Prim): the word-level helpers of the encoders /
+decoders — the constant-time hex decoder `decode_nibble`, `decode_hex_byte` of src/uint/encoding.rs (namespace
+CB.Gen.Encoding).  Subset extensions used there:
+  `u16`; the SIGNED integer types i8 i16 i32 i64 i128: the same `BitVec w` (two's complement pattern), but `>>` is the
+  arithmetic shift `BitVec.sshiftRight`, `<` `>` `<=` `>=` are the signed comparisons (`BitVec.slt` / `BitVec.sle`), `as` FROM a
+  signed type to a wider type sign-extends (`BitVec.signExtend`; to a narrower or equally wide type it keeps the low bits,
+  and `as` from an unsigned type zero-extends whatever the target), `+ - * & | ^ <<` and unary `-` are the operations
+  on the pattern (release semantics: wrapping); literals with a signed suffix (`0x2fi16`) and `let x: i16 = -1;`;
+  a fixed array of words `[u8; 2]` (parameter type) is the tuple of its elements, `bytes[K]` with a literal K its component.
 """
 import os, re, sys, json
 
@@ -102,6 +112,35 @@ def tokenize(s):
         else:
             out.append(('op', m.group(5)))
     return out
+
+
+class SInt(int):
+    """bit width of a SIGNED integer type (an `int`, so everything that handles widths handles it; only `>>`, the order
+    comparisons and `as` look at the signedness)"""
+
+
+WIDTH.update({'u16': 16})
+SIGNED = {'i8': SInt(8), 'i16': SInt(16), 'i32': SInt(32), 'i64': SInt(64), 'i128': SInt(128)}
+LIT_SUFFIX = set(SIGNED) | {'u16'}
+
+
+def merge_suffixes(toks):
+    """`0x2fi16` is tokenized as the number 0x2f followed by the identifier `i16` (the number pattern knows only the
+    unsigned suffixes): glue them (a number directly followed by a type name is nothing else in Rust)"""
+    out = []
+    for tok in toks:
+        if tok[0] == 'id' and tok[1] in LIT_SUFFIX and out and out[-1][0] == 'num' and out[-1][2] is None:
+            out[-1] = ('num', out[-1][1], tok[1])
+        else:
+            out.append(tok)
+    return out
+
+
+_tokenize_unsigned = tokenize
+
+
+def tokenize(s):
+    return merge_suffixes(_tokenize_unsigned(s))
 
 
 # ------------------------------------------------------------------ parser (expressions, statements -> AST tuples)
@@ -458,6 +497,15 @@ def ty_of(t, self_ty):
         return 'choice' if (self_ty == 'ConstChoice' or t == 'ConstChoice') else None
     if t == 'bool':
         return 'bool'
+    if t in SIGNED:
+        return SIGNED[t]
+    m = re.match(r'\[\s*(\w+)\s*;\s*(\d+)\s*\]$', t)
+    if m:
+        # a fixed array of words `[u8; 2]`: the tuple of its elements
+        el = ty_of(m.group(1), self_ty)
+        if not isinstance(el, int) or int(m.group(2)) < 2:
+            raise Unsupported('array type ' + t)
+        return tuple(el for _ in range(int(m.group(2))))
     if t in WIDTH:
         return WIDTH[t]
     if t.replace(' ', '') in WRAP:
@@ -602,6 +650,8 @@ class Gen:
         if k == 'lit':
             if want == 'nat' and e[2] in (None, 'usize'):
                 return str(e[1]), 'nat'          # an index / limb count
+            if e[2] in SIGNED:
+                return f'{e[1]}#{SIGNED[e[2]]}', SIGNED[e[2]]
             w = WIDTH.get(e[2]) if e[2] else (want if isinstance(want, int) else None)
             if w is None:
                 raise Unsupported('untyped literal')
@@ -641,6 +691,12 @@ class Gen:
             raise Unsupported('field of ' + str(ty))
         if k == 'index':
             t, ty = self.ex(e[1], env)
+            if isinstance(ty, tuple):
+                # a fixed array of words: component K for a literal K
+                c = self.const(e[2])
+                if c is None or not 0 <= c < len(ty):
+                    raise Unsupported('index into a fixed array')
+                return f'{atom(t)}{proj(c, len(ty))}', ty[c]
             if ty != 'uint':
                 raise Unsupported('index into ' + str(ty))
             ix, tix = self.ex(e[2], env, 'nat')
@@ -707,6 +763,8 @@ class Gen:
                 return t, tgt
             if not isinstance(ty, int):
                 raise Unsupported('cast of ' + str(ty))
+            if isinstance(ty, SInt) and tgt > ty:
+                return f'({t}).signExtend {tgt}', tgt      # `as` from a signed type to a wider one
             return f'({t}).setWidth {tgt}', tgt
         if k == 'bin':
             op = e[1]
@@ -721,7 +779,13 @@ class Gen:
                     s, ts = self.ex(e[3], env)
                     if not isinstance(ts, int) or ty >= 2 ** ts:
                         raise Unsupported('shift amount type')
+                    if isinstance(ty, SInt) and op == '>>':
+                        return f'(BitVec.sshiftRight {atom(t)} ({s} % {ty}#{ts}).toNat)', ty
                     return f'({t} {lop} ({s} % {ty}#{ts}))', ty
+                if isinstance(ty, SInt) and op == '>>':
+                    if not 0 <= c < ty:
+                        raise Unsupported('shift amount')
+                    return f'(BitVec.sshiftRight {atom(t)} {c})', ty      # arithmetic shift of a signed value
                 return f'({t} {lop} {c})', ty
             if want == 'nat' and op == '+':
                 a, ta = self.ex(e[2], env, 'nat'); b, tb = self.ex(e[3], env, 'nat')
@@ -748,6 +812,12 @@ class Gen:
                 lop = {'==': '==', '!=': '!=', '<': '<', '>': '>', '<=': '≤', '>=': '≥'}[op]
                 if op in ('==', '!='):
                     return f'({a} {lop} {b})', 'bool'
+                if isinstance(ta, SInt) or isinstance(tb, SInt):
+                    if not (isinstance(ta, SInt) and isinstance(tb, SInt)):
+                        raise Unsupported('comparison of a signed and an unsigned value')
+                    sop = {'<': f'BitVec.slt {atom(a)} {atom(b)}', '>': f'BitVec.slt {atom(b)} {atom(a)}',
+                           '<=': f'BitVec.sle {atom(a)} {atom(b)}', '>=': f'BitVec.sle {atom(b)} {atom(a)}'}[op]
+                    return f'({sop})', 'bool'
                 return f'(decide ({a} {lop} {b}))', 'bool'
             if op in ('&&', '||'):
                 return f'({a} {op} {b})', 'bool'
@@ -1270,6 +1340,12 @@ FILES = [
              ns='CB.Gen.Chains.Uint', self_ty='Uint', generic='LIMBS',
              desc='impl<const LIMBS: usize> Uint<LIMBS>: add / sub / neg / compare loops over the limbs',
              want=['adc', 'wrapping_add', 'sbb', 'wrapping_sub', 'carrying_neg', 'wrapping_neg', 'is_nonzero', 'eq', 'lt', 'gt', 'lte']),
+    ]),
+    # the word-level helpers of the encoders / decoders
+    ('Encoding.lean', ['CB.Gen.Prim', None, 'set_option linter.unusedVariables false'], [
+        dict(key='hex', rel='src/uint/encoding.rs', ns='CB.Gen.Encoding', self_ty=None,
+             desc='the constant-time hex decoder: decode_nibble (signed 16-bit arithmetic), decode_hex_byte',
+             want=['decode_nibble', 'decode_hex_byte'], private=True),
     ]),
 ]
 
